@@ -37,6 +37,7 @@ def main():
             if "CONFLICT" in out or "error:" in out:
                 print(out)
                 sys.exit("cherry-pick of %s failed - resolve by hand" % h)
+    branch_hash = {subj: h for h, subj in todo}
     if dry:
         return
     have = {l.split(" ", 1)[1]: l.split(" ", 1)[0] for l in git("log", "--format=%h %s", "main").splitlines()}
@@ -50,8 +51,9 @@ def main():
             if f.get("status") == "fixed" and subj and subj in have and f.get("commit") != have[subj]:
                 old = f.get("commit")
                 f["commit"] = have[subj]
-                if old and "line" in f:
-                    f["line"] = f["line"].replace(old, have[subj])
+                for o in (old, branch_hash.get(subj)):
+                    if o and "line" in f:
+                        f["line"] = f["line"].replace(o, have[subj])
                 changed = True
                 print("%s: %s -> %s (%s)" % (fn, old, have[subj], subj))
         if changed:
